@@ -35,7 +35,7 @@ def run(tier):
                 trusted_base=["python ast", "hv.kpe", "hv.drivers harness", "reference protocols in hv/rules/drv.py"])
     _a_integrate_times(chk)
     _a_propagate(chk)
-    c03._directed_semantics(_Relabel(chk))
+    c03._directed_semantics(_Relabel(chk), signed_time=True)
     c03._direction_sites(_Relabel(chk))
     c03._directed_memo(_Relabel(chk))
     _c_descending(chk)
@@ -183,6 +183,29 @@ def _a_propagate(chk):
             okd = len(da) >= 2 and da[0] is dyn and da[1] == fwd and isinstance(cap.get("system"), SymObj) and cap["system"].name == "directed"
             chk.check(okd, "C10.b", f"{BASE}::_propagate_dynsys[{method},forward={fwd}][directed system]",
                       "the integrator is not given the direction-wrapped system built from (dynsys, forward, flip_indices)", sample="integrate(_DirectedSystem(dynsys, forward, flip), ...)")
+    # a span that is short compared with |t| is still a span: only exactly coinciding end points may be short-circuited
+    for label, t0, tf in (("t0=1000, span 1/200", R(1000), R(1000) + R(1, 200)), ("t0=0, span 1e-9", R(0), R(1, 10 ** 9))):
+        called = []
+
+        def integ2(system, y0, t_eval, **kw):
+            called.append(t_eval)
+            return SymObj(None, {"times": t_eval, "states": sp.Symbol("STATES")}, "sol")
+
+        ov2 = {"RungeKutta": lambda ip_, a, k: SymObj(None, {"integrate": integ2}, "rk"), "AdaptiveRK": lambda ip_, a, k: SymObj(None, {"integrate": integ2}, "ark"),
+               "_ExtendedSymplectic": lambda ip_, a, k: SymObj(None, {"integrate": integ2}, "sym"), "_DirectedSystem": lambda ip_, a, k: sp.Symbol("D"),
+               "_Solution": lambda ip_, a, k: SymObj(None, {"times": a[0], "states": a[1]}, "sol"), "_validate_initial_state": lambda ip_, a, k: a[0]}
+        ipz = Interp(overrides=ov2, decide=lambda c: None)
+        ipz.apply(FuncRef(mod, fn, qual="_propagate_dynsys"), [], dict(dynsys=SymObj(None, {"dim": 2}, "d"), state0=tagvec("y0"), t0=t0, tf=tf, forward=1, steps=3, method="adaptive", order=8))
+        chk.check(len(called) == 1, "C10.d", f"{BASE}::_propagate_dynsys[short span: {label}]",
+                  f"a propagation over the non-empty span [{t0}, {tf}] is answered with the repeated initial state instead of being integrated (tolerance-based 'zero length' test)",
+                  sample=f"{label}: integrated")
+    imod, icls = ri.find_def("hiten.algorithms.integrators.base", "_Integrator")
+    for label, grid in (("t=[1000, 1000.005]", [R(1000), R(1000) + R(1, 200)]), ("t=[0, 1e-9]", [R(0), R(1, 10 ** 9)])):
+        integ_obj = SymObj(ClassRef(imod, icls), {}, "integrator")
+        ipm = Interp(overrides={"_Solution": lambda ip_, a, k: SymObj(None, dict(k), "sol")}, decide=lambda c: None)
+        out = ipm.apply(ipm.getattr(integ_obj, "_maybe_constant_solution"), [SymObj(None, {"rhs": lambda t, y: tagvec("F")}, "system"), tagvec("y0"), to_obj_array(grid)], {})
+        chk.check(out is None, "C10.d", "hiten.algorithms.integrators.base::_Integrator._maybe_constant_solution[" + label + "]",
+                  f"the grid {grid} is treated as a zero-length span: the integrator returns the initial state at every requested time", sample=f"{label}: not short-circuited")
     # zero-span short-circuit repeats the state
     ip = Interp(overrides={"_DirectedSystem": lambda ip_, a, k: sp.Symbol("D"), "_Solution": lambda ip_, a, k: SymObj(None, {"times": a[0], "states": a[1]}, "sol"),
                            "_validate_initial_state": lambda ip_, a, k: a[0]}, decide=lambda c: True,
